@@ -307,6 +307,7 @@ def builder_ops():
     ops.append({"op": "set_field", "n": "restart_position", "v": -5})
     ops.append({"op": "set_ctl", "m": 1, "which": "first", "v": "max"})
     ops.append({"op": "set_ctl", "m": 2, "which": "last", "v": "min"})
+    ops.append({"op": "save"})
     return ops
 
 
@@ -317,13 +318,18 @@ class Builder:
     def fresh(self):
         import rv.api as rv
 
-        return {"p": rv.Project()}
+        return {"p": rv.Project(), "saved": 0}
 
     def apply(self, L, op):
         import rv.api as rv
 
         p = L["p"]
         k = op["op"]
+        L["saved"] = 1 if k == "save" else 0
+        L["saved_ever"] = 1 if (k == "save" or L.get("saved_ever")) else 0
+        if k == "save":
+            p.read()            # a save between edits must not make a later save miss the edits
+            return "ok"
         if k == "new_module":
             p.new_module(getattr(rv.m, op["T"]))
         elif k == "attach_none":
@@ -371,6 +377,7 @@ class Builder:
                 # this driver: type, links, controllers, and the project-level fields/patterns
                 for k in ("payload", "options", "cmid"):
                     m.pop(k, None)
+        s["_saved_last"] = (L.get("saved", 0), L.get("saved_ever", 0))   # a save may leave hidden state behind: do not merge with unsaved states
         return s
 
     def invariant(self, L):
